@@ -94,6 +94,11 @@ StmtSet(d, scoped) ==   \* d = statement depth budget of the children
          Node("Branch", "", <<Hole("bool", ExprDepth), Hole("stmtS", d - 1), EmptyBlock>>),
          Node("Branch", "", <<Hole("bool", ExprDepth), EmptyBlock, Hole("stmtS", d - 1)>>),
          Node("Loop", "", <<Hole("bool", ExprDepth), Hole("stmtS", d - 1)>>),
+         \* pure counting loops, the idiom generated kernels use to finish an index (the body is exactly the increment);
+         \* the bound is a variable or a literal and may be below the counter on entry
+         Node("Loop", "", <<Node("LessThan", "", <<Var("x"), Var("y")>>), Incr("x")>>),
+         Node("Loop", "", <<Node("LessThan", "", <<Var("x"), IntLit(2)>>), Incr("x")>>),
+         Node("Loop", "", <<Node("LessThan", "", <<Var("x"), IntLit(2)>>), Node("Block", "", <<Incr("x")>>)>>),
          \* a loop that terminates by construction: while (x < 2) { S ; x = x + 1 }
          Node("Loop", "", <<Node("LessThan", "", <<Var("x"), IntLit(2)>>),
                             Node("Block", "", <<Hole("stmt", d - 1), Incr("x")>>)>>)})
